@@ -325,6 +325,10 @@ def r3_structure(ctx):
             tails = [v.value for v in n.values if isinstance(v, ast.Constant)]
             if specs and '%Y' in specs[0]:
                 fmt.append(specs[0].strip("f'") + ''.join(tails))
+    # ... or the same formats through strftime
+    for n in ast.walk(pr.node):
+        if isinstance(n, ast.Call) and isinstance(n.func, ast.Attribute) and n.func.attr == 'strftime' and n.args and isinstance(n.args[0], ast.Constant) and isinstance(n.args[0].value, str) and '%Y' in n.args[0].value:
+            fmt.append(n.args[0].value)
     ctx.check(sorted(fmt) == sorted(['%Y%m%dT%H%M%SZ', '%Y%m%d']), 'C16.R3', f'{func_label(pr)}|date-formats', loc(pr, pr.node), 'x-amz-date = YYYYMMDDTHHMMSSZ, scope date = YYYYMMDD (UTC)', f'date formats changed: {fmt}')
     utc = any(dotted(c.func) in ('datetime.utcnow',) or (dotted(c.func) == 'datetime.now' and c.args) for c in calls_in(pr.node))
     ctx.check(utc, 'C16.R3', f'{func_label(pr)}|utc-clock', loc(pr, pr.node), 'the request time is read in UTC', 'the request time is not read in UTC')
